@@ -341,12 +341,15 @@ fn run_one_on(name: &str, f: fn() -> String) -> (Res, Vec<Ev>) {
 }
 
 fn run_one(f: fn() -> String) -> (Res, Vec<Ev>) {
+    let base = crate::exec::os_threads();
     log::new_epoch();
     log::clear();
     let r = catch_unwind(AssertUnwindSafe(f));
-    // thread kinds join all their threads before returning; panics may leave stragglers
-    let base = crate::exec::os_threads();
-    let _ = base;
+    // thread kinds join all their threads before returning, but a panic leaves the unjoined ones behind — possibly not even
+    // started yet, so that their first event would be logged (as fresh) into the next run: wait until they are gone
+    if r.is_err() {
+        let _ = crate::exec::quiesce(std::time::Duration::from_secs(10), base);
+    }
     let l = log::take();
     (
         match r {
@@ -442,6 +445,12 @@ pub fn main(twins: &'static [Twin]) {
             }
             plan::install(t.max_id, &p);
             let (rv, rl) = run_one(t.r);
+            if let Res::Panic(m) = &rv {
+                // the reference itself panicked (e.g. arithmetic overflow in user code): generator defect, not a verdict —
+                // the macro side is not run at all (in the thread kinds its panic would leave detached threads behind)
+                inconclusive.push(format!("twin {} plan {}: reference panicked: {}", t.id, pstr, m));
+                continue;
+            }
             plan::install(t.max_id, &p);
             let (mv, ml) = run_one(t.m);
             runs += 1;
